@@ -133,6 +133,7 @@ func init() {
 		stubs[k] = v
 	}
 	registerExecStubs()
+	registerJSONStubs()
 }
 
 func stubNop(p *path, _ *frame, a []value) value { return nil }
